@@ -17,6 +17,7 @@ struct ModelTraits {
 	bool serialization = false;  // SAVE/LOAD operations are available in this build
 	bool tracked       = true;   // element type reports its moved-from state (Tracked*)
 	bool mpi           = false;  // MSG_PACK / MSG_XFER operations are available in this build
+	bool always_equal  = false;  // allocator is_always_equal: one arena only
 	bool ctor_default_inits = false;  // the allocator's construct(p) default-initialises: array(extents) leaves scalar members unwritten
 };
 
@@ -120,6 +121,7 @@ inline bool plan_effect(Model const& M, ModelTraits const& T, Op const& op, Effe
 	i64 const fresh_or_zero = T.trivial ? static_cast<i64>(0xA5A5A5A5A5A5A5A5ull) : 0;
 	int const D             = op.da;
 	e.variant               = op_name(op.kind);
+	if(T.always_equal && op.ar != 0) return false;
 	if(D == 0) {  // zero-dimensional arrays: one element, no extents, no views; a small operation set
 		if(T.dmin != 0) return false;
 		switch(op.kind) {
